@@ -56,6 +56,11 @@ func main() {
 	}
 	seed, _ := strconv.Atoi(os.Getenv("VERIF_SEED"))
 	selftestFile = *selftest
+	// a check must never hang: without a verdict after the time budget it is a broken check
+	time.AfterFunc(8*time.Minute, func() {
+		fmt.Fprintf(os.Stderr, "NO-VERDICT property=%s: analysis exceeded its time budget\n", *prop)
+		os.Exit(2)
+	})
 	os.Exit(run(*prop, *repo, *verif, *tier, seed))
 }
 
